@@ -126,17 +126,16 @@ def genConstPool (value : Int) : M String := do
     pure label
 
 /-- `genConst` (2506-2521). -/
-def genConst (reg : Reg) (v : CInt) : M Code := do
-  let value := v.toInt
-  if value > -65536 ∧ value < 65536 then
-    match reg with
-    | .A => pure [iLDAC value]
-    | .B => pure [iLDBC value]
-  else
-    let label ← genConstPool value
-    match reg with
-    | .A => pure [lLDAM label]
-    | .B => pure [lLDBM label]
+def genConst (reg : Reg) (v : CInt) : M Code :=
+  if v.toInt > -65536 ∧ v.toInt < 65536 then
+    pure (match reg with
+      | .A => [iLDAC v.toInt]
+      | .B => [iLDBC v.toInt])
+  else do
+    let label ← genConstPool v.toInt
+    pure (match reg with
+      | .A => [lLDAM label]
+      | .B => [lLDBM label])
 
 /-- The packing loop of `genString` (2530-2543).  `value[i]` is a `char`: it is sign-extended
     before the shift (bytes ≥ 0x80 smear into the higher lanes: D15, outside the C01 domain). -/
@@ -214,6 +213,16 @@ def binopOperands (ctx : Ctx) (rNeedsA : Bool) (genL genRA genRB : M Code) : M C
 def selectTail (br : String → IDir) (trueLabel endLabel : String) : Code :=
   [br trueLabel, iLDAC 0, lBR endLabel, iLabel trueLabel, iLDAC 1, iLabel endLabel]
 
+/-- The operand of the zero test of `=` and `<` (2205-2221, 2232-2246): the other operand when
+    one is the constant 0, else the difference `LHS - RHS` (a fresh, non-constant MINUS node run
+    through `genExpr`: `genBinopOperands` then SUB). -/
+def eqOperand (lZero rZero : Bool) (genL genR genOps : M Code) : M Code :=
+  if lZero then genR
+  else if rZero then genL
+  else do
+    let c ← genOps
+    pure (c ++ [iSUB])
+
 inductive CallKind where
   | sys (id : Int)
   | func (name : String)
@@ -222,6 +231,25 @@ inductive CallKind where
 def CallKind.paramOffset : CallKind → Nat
   | .sys _ | .func _ => FB_PARAM_OFFSET_FUNC
   | .proc _ => FB_PARAM_OFFSET_PROC
+
+/-- The instructions after the actuals have been loaded: the system call, or branch and link;
+    then the result is fetched from `sp[1]` (system calls and functions). -/
+def callTailM (kind : CallKind) : M Code :=
+  match kind with
+  | .sys id => pure [iLDAC id, iSVC, iLDAM SP_OFFSET, iLDAI 1]
+  | .func name => do
+    let linkLabel ← getLabel
+    pure [lLDAP linkLabel, lBR name, iLabel linkLabel, iLDAM SP_OFFSET, iLDAI 1]
+  | .proc name => do
+    let linkLabel ← getLabel
+    pure [lLDAP linkLabel, lBR name, iLabel linkLabel]
+
+/-- `ExprCodeGen::visitPost(CallExpr&)` (2292-2303): which of the three call generators runs. -/
+def exprCallKind (ctx : Ctx) (sys : Int) (f : String) : M CallKind :=
+  if sys ≠ -1 then pure (CallKind.sys sys)
+  else do
+    let sym ← (ctx.tbl.lookup ctx.scope f : Except Diag Symbol)
+    pure (if sym.type = .func then CallKind.func f else CallKind.proc f)
 
 /-- `genSysCall` / `genFuncCall` / `genProcCall` (2633-2680) over the generators of the two
     passes over the actuals (`genCallActuals`, second loop of `loadActuals`). -/
@@ -235,15 +263,7 @@ def callSeq (kind : CallKind) (nargs ncalls : Nat) (actuals : M Code) (load : Na
   incOffsetN ncalls
   let c2 ← load kind.paramOffset savedOffset
   incOffset (nargs + kind.paramOffset)
-  let c3 ←
-    match kind with
-    | .sys id => pure [iLDAC id, iSVC, iLDAM SP_OFFSET, iLDAI 1]
-    | .func name => do
-      let linkLabel ← getLabel
-      pure [lLDAP linkLabel, lBR name, iLabel linkLabel, iLDAM SP_OFFSET, iLDAI 1]
-    | .proc name => do
-      let linkLabel ← getLabel
-      pure [lLDAP linkLabel, lBR name, iLabel linkLabel]
+  let c3 ← callTailM kind
   setOffset stackOffset
   pure (c1 ++ c2 ++ c3)
 
@@ -267,11 +287,7 @@ def genExpr (ctx : Ctx) : AExpr → Reg → M Code
       let ci ← genExpr ctx i .A
       pure (ci ++ genVar .B baseSymbol ++ [iADD, iLDAI 0])
   | .call sys f args, _ => do
-    let kind ←
-      if sys ≠ -1 then pure (CallKind.sys sys)
-      else do
-        let sym ← (ctx.tbl.lookup ctx.scope f : Except Diag Symbol)
-        pure (if sym.type = .func then CallKind.func f else CallKind.proc f)
+    let kind ← exprCallKind ctx sys f
     callSeq kind args.length (countCalls args) (genCallActuals ctx args) (fun p s => loadActuals ctx args p s)
   | .un op e c, reg =>
     match c with
@@ -307,22 +323,14 @@ def genExpr (ctx : Ctx) : AExpr → Reg → M Code
         let cr ← genExpr ctx r .A
         pure (cl ++ [lBRZ falseLabel, lBR endLabel, iLabel falseLabel] ++ cr ++ [iLabel endLabel])
       | .eq => do
-        let c ←
-          if l.isConstZero then genExpr ctx r .A
-          else if r.isConstZero then genExpr ctx l .A
-          else do
-            -- genExpr of a fresh, non-constant `LHS - RHS` node
-            let c ← binopOperands ctx (needsAReg r) (genExpr ctx l .A) (genExpr ctx r .A) (genExpr ctx r .B)
-            pure (c ++ [iSUB])
+        let c ← eqOperand l.isConstZero r.isConstZero (genExpr ctx l .A) (genExpr ctx r .A)
+          (binopOperands ctx (needsAReg r) (genExpr ctx l .A) (genExpr ctx r .A) (genExpr ctx r .B))
         let trueLabel ← getLabel
         let endLabel ← getLabel
         pure (c ++ selectTail lBRZ trueLabel endLabel)
       | .ls => do
-        let c ←
-          if r.isConstZero then genExpr ctx l .A
-          else do
-            let c ← binopOperands ctx (needsAReg r) (genExpr ctx l .A) (genExpr ctx r .A) (genExpr ctx r .B)
-            pure (c ++ [iSUB])
+        let c ← eqOperand false r.isConstZero (genExpr ctx l .A) (genExpr ctx r .A)
+          (binopOperands ctx (needsAReg r) (genExpr ctx l .A) (genExpr ctx r .A) (genExpr ctx r .B))
         let trueLabel ← getLabel
         let endLabel ← getLabel
         pure (c ++ selectTail lBRN trueLabel endLabel)
